@@ -7,8 +7,8 @@ import traceback
 
 import numpy as np
 
-from .core import (HarnessError, INJECTED, SimBudget, digest_field, digest_log,
-                   field_obs, fhex, is_finite_field, ulp, unhex)
+from .core import (HarnessError, SimBudget, digest_field, digest_log,
+                   field_obs, is_finite_field, ulp, unhex)
 from .refmodel import Model
 from .trace import FlushSink, GlobalGuard, Recorder, fingerprint, patched_np
 from .world import IMPLICIT, World, deep_field_copy, integrator_class, mon_dict, tnum
